@@ -19,6 +19,7 @@ RULE = (
     'LinearCovariateModel with list and ndarray selections. Non-trivial: >=2 distinct selected pairs, or an unsorted / '
     'duplicated selection, or n_dim>=2 with n_cov>=2. Distinct = (base kind, centred, n_dim, n_cov, selection as given, '
     'n_ids, zero flags).')
+RULE += (' ' + 'Added class: covariates recorded in other units (1e-9, 1e-12, 1e-7, 1e4 times the usual scale).')
 ASSUMPTIONS = [
     "oracle: the underlying chi model evaluated separately per individual with vartheta_i computed by hand (the "
     "property's own statement), and the reference density of vf/ref.py for the absolute value",
